@@ -29,7 +29,10 @@ for pi, src in enumerate(progs):
         for w in ("list", "chain_call"):
             for i in ("if_expr", "short_circuit"):
                 c = Configs(); c.unparser = u; c.expr_wrapper = w; c.if_style = i
-                out["%%d|%%s|%%s|%%s" %% (pi, u, w, i)] = oneliner.convert_code_string(src, configs=c)
+                try:
+                    out["%%d|%%s|%%s|%%s" %% (pi, u, w, i)] = oneliner.convert_code_string(src, configs=c)
+                except Exception as e:
+                    out["%%d|%%s|%%s|%%s" %% (pi, u, w, i)] = "!raised " + type(e).__name__
 json.dump(out, open(sys.argv[2], "w"))
 '''
 
@@ -165,9 +168,15 @@ def run_real(ol, progs, ops, with_churn=False):
         elif op[0] == "convert":
             if op[2] >= len(objs):
                 outs.append("noobj"); continue
-            outs.append(["text", normalise(ol.convert_code_string(progs[op[1]], configs=objs[op[2]]))])
+            try:
+                outs.append(["text", normalise(ol.convert_code_string(progs[op[1]], configs=objs[op[2]]))])
+            except Exception as e:
+                outs.append(["text", "!raised " + type(e).__name__])
         elif op[0] == "convertDefault":
-            outs.append(["text", normalise(ol.convert_code_string(progs[op[1]]))])
+            try:
+                outs.append(["text", normalise(ol.convert_code_string(progs[op[1]]))])
+            except Exception as e:
+                outs.append(["text", "!raised " + type(e).__name__])
         elif op[0] == "reseed":
             random.seed(op[1]); outs.append("none")
     return outs
@@ -185,7 +194,7 @@ def main(argv):
         ck.broken.append("lean: OlVerif.Props.C10 does not build (the probed storage kind of option values makes the purity theorems false, or the model changed): " + b["log"][-1200:])
     else:
         ck.audit("OlVerif/Audit/C10.lean")
-    nprogs = 13 if ck.tier == "quick" else 28
+    nprogs = 15 if ck.tier == "quick" else 30
     progs = [gen_prog.gen_program(ck.rng, size=ck.rng.randrange(3, 9))[0] for _ in range(nprogs)]
     progs[1] = "for i in [1, 2, 3]:\n    if i == 2:\n        break\n    print(i)\nelse:\n    print('no')\n"
     progs[2] = "n = 2\nwhile n:\n    n -= 1\nimport math\nprint(math.floor(2.5))\n"
@@ -203,6 +212,11 @@ def main(argv):
     progs[9] = "a = True\nb = 1 if True else 0\nc = False or 0\nprint(a, b, c)\n"
     progs[10] = "t = 2 * 1.0\nu = 0.0 + 1\nz = 0j\nprint(t, u, z, 1, 0)\n"
     progs[11] = "class K:\n    n = 1\n    k = [n for n in [2]]\n    def m(self, n=n):\n        return [n for _ in [0]]\nprint(K.n, K.k, K().m())\n"
+    # a script that is refused half-way (other statements before and after the unsupported one), and one refused for an
+    # illegal placement: what a failed conversion leaves behind must not reach the next one.  They are the LAST programs of
+    # the pool, so that nothing follows them in the fresh reference process either
+    progs[nprogs - 1] = "leak_before = 1\nn = 2\nwhile n:\n    n -= 1\ntry:\n    pass\nexcept Exception:\n    pass\nleak_after = [k for k in range(2)]\n"
+    progs[nprogs - 2] = "def f(a):\n    b = a + 1\n    def g():\n        return b\n    return g\nfor i in [1]:\n    print(i)\ncontinue\nafter = f(1)()\n"
     try:
         F = fresh_table(progs, per_conversion=(ck.tier == "thorough"))
     except Exception as e:
@@ -210,9 +224,9 @@ def main(argv):
     nh = 400 if ck.tier == "quick" else 12000
     hists = [random_history(ck.rng, nprogs, ck.rng.randrange(1, 7)) for _ in range(nh)]
     # every ordered pair of the curated programs, with one option object and with the default options
-    for i in range(12):
-        for j in range(12):
-            if i != j and (ck.tier == "thorough" or (i >= 7 or j >= 7)):
+    for i in range(nprogs):
+        for j in range(nprogs):
+            if i != j and (ck.tier == "thorough" or ((i >= 7 or j >= 7) and i < 12 and j < 12) or i >= nprogs - 2):
                 hists.append([["new"], ["set", 0, "unparser", "oneliner"], ["convert", i, 0], ["convert", j, 0], ["convertDefault", i], ["convertDefault", j]])
     model = None
     if b["driver_ok"]:
